@@ -639,6 +639,9 @@ func (ld *Loaded) coverageScans(id string) []*FuncResult {
 	wanted := map[tk]bool{}
 	for _, fd := range ld.cs.Fields {
 		if fd.Kind == "covered" && fd.Field == "*" {
+			if ld.inPlan(fd) {
+				wanted[tk{fd.Pkg, fd.Type}] = true
+			}
 			for _, p := range fd.Props {
 				if p == id {
 					wanted[tk{fd.Pkg, fd.Type}] = true
@@ -647,13 +650,8 @@ func (ld *Loaded) coverageScans(id string) []*FuncResult {
 		}
 	}
 	for _, fd := range ld.cs.Fields {
-		has := false
-		for _, p := range fd.Props {
-			if p == id {
-				has = true
-			}
-		}
-		if !has || !protectKinds[fd.Kind] || fd.Field == "*" {
+		// every protection clause of a wanted type counts, whatever property it is tagged with
+		if !protectKinds[fd.Kind] || fd.Field == "*" {
 			continue
 		}
 		k := tk{fd.Pkg, fd.Type}
